@@ -22,7 +22,8 @@ serialised with build_bytes_vec_compressed, parsed, ingested through the hook ar
 variant), read back with get_domain_resources(service, cached()) and from_records. Oracle: the discovered set equals the announced set minus the discoverer's own instance; every \
 channel value equals the instance announced by that packet; foreign traffic (own instance, records owned by the service name, sibling service, concatenation-colliding names, parent \
 domain, unrelated names) is never reported. A sampled live family starts pairs of real ServiceDiscovery instances (sync/sync and sync/tokio) on loopback multicast and requires \
-each to report exactly the other (real announce(), receive loops, get_known_services()). Escape/unescape: bounded-exhaustive over {a . \\ e-acute space} up to length 7 (quick) / 8 (thorough) plus random Unicode. non-trivial = history \
+each to report exactly the other (real announce(), receive loops, get_known_services()); a passive witness socket on the mDNS group counts the response datagrams of each peer, and a listener \
+that reports nothing in 3 consecutive rounds although the witness saw the other peer's records at least twice per round is a violation (a single incomplete round is inconclusive). Escape/unescape: bounded-exhaustive over {a . \\ e-acute space} up to length 7 (quick) / 8 (thorough) plus random Unicode. non-trivial = history \
 with at least one peer announcement or an escape string containing a dot or backslash; distinct = hash of the history / string",
         assumptions: &["attribute keys are non-empty, free of '=' and do not differ only by case", "re-announcements repeat the same description", "TTLs are large (expiry is C20's subject)"],
         exhaustive: false,
@@ -416,17 +417,78 @@ fn helper_case(ctx: &mut Ctx, idx: u64) {
 
 /// Real services on loopback multicast: two ServiceDiscovery instances of the same (unique) service must report each other
 /// exactly. This is the only family that goes through the real `announce()`, the real receive loops and `get_known_services()`.
+/// A passive listener on the mDNS group, used only as a witness: which response datagrams carrying records of a given
+/// instance were on the wire during a live round.
+fn open_tap() -> Option<std::net::UdpSocket> {
+    use std::os::fd::FromRawFd;
+    unsafe {
+        let fd = libc::socket(libc::AF_INET, libc::SOCK_DGRAM | libc::SOCK_CLOEXEC, 0);
+        if fd < 0 {
+            return None;
+        }
+        let one: libc::c_int = 1;
+        let sz = std::mem::size_of::<libc::c_int>() as libc::socklen_t;
+        libc::setsockopt(fd, libc::SOL_SOCKET, libc::SO_REUSEADDR, &one as *const _ as *const libc::c_void, sz);
+        libc::setsockopt(fd, libc::SOL_SOCKET, libc::SO_REUSEPORT, &one as *const _ as *const libc::c_void, sz);
+        let big: libc::c_int = 4 << 20;
+        libc::setsockopt(fd, libc::SOL_SOCKET, libc::SO_RCVBUF, &big as *const _ as *const libc::c_void, sz);
+        let mut addr: libc::sockaddr_in = std::mem::zeroed();
+        addr.sin_family = libc::AF_INET as libc::sa_family_t;
+        addr.sin_port = 5353u16.to_be();
+        addr.sin_addr = libc::in_addr { s_addr: u32::from(Ipv4Addr::new(224, 0, 0, 251)).to_be() };
+        if libc::bind(fd, &addr as *const _ as *const libc::sockaddr, std::mem::size_of::<libc::sockaddr_in>() as libc::socklen_t) != 0 {
+            libc::close(fd);
+            return None;
+        }
+        let sock = std::net::UdpSocket::from_raw_fd(fd);
+        sock.join_multicast_v4(&Ipv4Addr::new(224, 0, 0, 251), &Ipv4Addr::UNSPECIFIED).ok()?;
+        sock.set_nonblocking(true).ok()?;
+        Some(sock)
+    }
+}
+
+/// Drain the tap; returns how many response datagrams carried a record owned by `<first>.<svc>` / `<second>.<svc>`
+/// (decoded with the independent reader, so that compression pointers are followed).
+fn drain_tap(tap: &Option<std::net::UdpSocket>, svc_label: &[u8], first: &[u8], second: &[u8]) -> (u64, u64) {
+    let mut n = (0u64, 0u64);
+    let Some(sock) = tap else { return n };
+    let mut buf = [0u8; 9000];
+    while let Ok((len, _)) = sock.recv_from(&mut buf) {
+        let d = &buf[..len];
+        if len < 12 || d[2] & 0x80 == 0 {
+            continue;
+        }
+        let Ok(env) = decode_envelope(d) else { continue };
+        let owns = |who: &[u8]| env.secs.iter().flatten().any(|r| r.name.labels.len() >= 2 && r.name.labels[0] == who && r.name.labels[1] == svc_label);
+        if owns(first) {
+            n.0 += 1;
+        }
+        if owns(second) {
+            n.1 += 1;
+        }
+    }
+    n
+}
+
 fn live(ctx: &mut Ctx) {
     use simple_mdns::{async_discovery, sync_discovery};
     let pid = std::process::id();
     let rounds = ctx.tier.pick(24u64, 240u64);
     let rt = tokio::runtime::Builder::new_multi_thread().worker_threads(2).enable_all().build().unwrap();
+    let tap = open_tap();
+    if tap.is_none() {
+        ctx.notes.push("live discovery: the witness socket on the mDNS group could not be opened; rounds in which a peer reports nothing stay inconclusive".into());
+    }
+    // consecutive rounds in which a listener of that kind reported nothing although the witness saw the other peer's
+    // announcements on the wire at least twice
+    let mut silent_streak: HashMap<&'static str, (u64, Vec<u64>)> = HashMap::new();
     for k in 0..rounds {
         if ctx.time_up() {
             break;
         }
         let mut r = ctx.rng("live", k);
-        let svc = format!("_l{}x{}._tcp.local", k, pid);
+        let svc_label = format!("_l{}x{}", k, pid);
+        let svc = format!("{}._tcp.local", svc_label);
         let d1 = gen_desc(&mut r, "one");
         let d2 = gen_desc(&mut r, "two");
         let tokio_side = k % 2 == 1;
@@ -455,6 +517,12 @@ fn live(ctx: &mut Ctx) {
                 return;
             }
         };
+        // witness counts: (datagrams of the first peer seen while the second was listening, datagrams of the second peer)
+        let (n1, n2) = (d1.name.as_bytes().to_vec(), d2.name.as_bytes().to_vec());
+        let mut on_wire = (0u64, 0u64);
+        // the first peer listens from before the second one exists: everything the second sent counts; what the first
+        // sent before this point may predate the second peer's listener and does not
+        on_wire.1 += drain_tap(&tap, svc_label.as_bytes(), &n1, &n2).1;
         let want1: HashSet<InstanceInformation> = [d2.info(3)].into_iter().collect();
         let want2: HashSet<InstanceInformation> = [d1.info(4)].into_iter().collect();
         let observe = |s1: &sync_discovery::ServiceDiscovery, s2: &Result<sync_discovery::ServiceDiscovery, async_discovery::ServiceDiscovery>| {
@@ -467,8 +535,8 @@ fn live(ctx: &mut Ctx) {
         };
         let mut seen = (HashSet::new(), HashSet::new());
         let mut ok = false;
-        for phase in 0..2 {
-            let deadline = std::time::Instant::now() + std::time::Duration::from_millis(if phase == 0 { 3000 } else { 2500 });
+        for phase in 0..3 {
+            let deadline = std::time::Instant::now() + std::time::Duration::from_millis(if phase == 0 { 3000 } else { 1500 });
             while std::time::Instant::now() < deadline {
                 match monitor::guard(|| observe(&s1, &s2)) {
                     Ok(o) => seen = o,
@@ -483,6 +551,9 @@ fn live(ctx: &mut Ctx) {
                     ok = true;
                     break;
                 }
+                let seen_now = drain_tap(&tap, svc_label.as_bytes(), &n1, &n2);
+                on_wire.0 += seen_now.0;
+                on_wire.1 += seen_now.1;
                 std::thread::sleep(std::time::Duration::from_millis(40));
             }
             if ok {
@@ -494,6 +565,41 @@ fn live(ctx: &mut Ctx) {
                 Ok(s) => s.announce(false),
                 Err(a) => { let _ = rt.block_on(a.announce(false)); }
             }
+        }
+        let seen_now = drain_tap(&tap, svc_label.as_bytes(), &n1, &n2);
+        on_wire.0 += seen_now.0;
+        on_wire.1 += seen_now.1;
+        ctx.add("live_witnessed_response_datagrams", on_wire.0 + on_wire.1);
+        // silent listeners: the first peer is always the std one, the second alternates
+        let kinds: [(&'static str, bool, u64); 2] = [
+            ("first peer (std listener)", seen.0.is_empty(), on_wire.1),
+            (if tokio_side { "second peer (tokio listener)" } else { "second peer (std listener)" }, seen.1.is_empty(), on_wire.0),
+        ];
+        let mut silent_violation = false;
+        for (kind, reported_nothing, witnessed) in kinds {
+            let e = silent_streak.entry(kind).or_insert((0, Vec::new()));
+            if !reported_nothing {
+                // this listener demonstrably ingested a response
+                *e = (0, Vec::new());
+            } else if witnessed >= 2 {
+                e.0 += 1;
+                e.1.push(witnessed);
+                if e.0 >= 3 && !silent_violation {
+                    ctx.violation("discovered-equals-announced", &format!("live-discovery-silent:{}", if kind.contains("tokio") { "tokio-listener" } else { "std-listener" }),
+                        format!("in {} consecutive live rounds with that pairing the {} reported no instance at all although the witness socket saw the other peer's response datagrams on the wire ({:?} per round)", e.0, kind, e.1), case());
+                    silent_violation = true;
+                }
+            }
+        }
+        if silent_violation {
+            monitor::guard(|| {
+                s1.remove_service_from_discovery();
+                match &mut s2 {
+                    Ok(s) => s.remove_service_from_discovery(),
+                    Err(a) => rt.block_on(a.remove_service_from_discovery()),
+                }
+            }).ok();
+            break;
         }
         if ok {
             ctx.count("live_pairs_discovered_each_other_exactly");
